@@ -278,7 +278,8 @@ def run(ctx):
 	ctx.assume("where RF mute and a pending drop budget overlap, both budget outcomes are accepted (the statement is silent)")
 	r = ctx.rng("c18")
 	for i in range(ctx.scale(400, 60000)):
-		run_stream(ctx, ctx.case_rng("stream", i), i)
+		with common.case_watchdog(ctx, "stream", {"case": i}, first = 60, second = 60):
+			run_stream(ctx, ctx.case_rng("stream", i), i)
 		ctx.count("streams")
 		if ctx.too_many() or ctx.time_left() < 0:
 			break
